@@ -54,6 +54,29 @@ CHECKS = {
         "assumptions": TREE_ASSUME,
         "jobs": [{"pkg": "c03shape", "kinds": ["shapeplan"], "shards_quick": 4, "scale_quick": 0.25, "scale_thorough": 6, "shards_thorough": 16}],
     },
+    "C05": {
+        "level": "exploration",
+        "level_text": ("Model-based property testing: generated Push/Pop/Peek/Grow/Shrink/Iterate histories on xheap.Heap (tie-heavy priorities, 3 orders, less- and cmp-constructed, "
+                       "generated initial slices) against a multiset with an 'any minimum' validity predicate; generated Update/Remove/Pop/... histories on PriorityQueue with keys chosen by heap "
+                       "position (root/last/inner/leaf) and priorities moved lower/equal/higher, against a key->priority map with a full observation after every op"),
+        "level_note": "Trusts the multiset/map models in c05heap, rapid; which duplicate wins at construction is left open as the documentation does.",
+        "technique": "stateful property-based testing (rapid) against a reference model with a validity predicate for ties",
+        "rule": ("kinds: 'heap' (1-60 ops after a 0-40 element initial slice) and 'queue' (universe 1-24 keys, initial list with duplicate keys, 1-60 ops). non-trivial: heap = a Pop after a Push after a Pop; "
+                 "queue = an Update/Remove of a key at an inner or leaf heap position followed by >= 2 Pops, with a priority tie present at some Pop; distinct = distinct plan JSON"),
+        "assumptions": ["models in c05heap are correct", "rapid v1.3.0; go1.26.8"],
+        "jobs": [{"pkg": "c05heap", "kinds": ["heap", "queue"], "scale_thorough": 10, "shards_thorough": 16}],
+    },
+    "C06": {
+        "level": "exploration",
+        "level_text": ("Model-based property testing: generated histories of all 10 list operations with node/mark handles chosen by explicit position classes (same node, adjacent in either order, "
+                       "opposite ends, either at an end, singleton, random), including re-growth after Clear and after removing every node; after every op both walks, Len, end links, handle identity and Values "
+                       "are compared with a slice-of-handles model, walks bounded so that a cycle is a violation not a hang"),
+        "level_note": "Trusts the slice-of-handles model in c06list and rapid; only handles currently in the list are used (documented precondition).",
+        "technique": "stateful property-based testing (rapid) against a reference model",
+        "rule": ("plans of 1-60 ops from the zero value; non-trivial = a MoveBefore/MoveAfter with node and mark adjacent or at opposite ends on a list of length >= 3 after at least one Remove; distinct = distinct plan JSON"),
+        "assumptions": ["slice model in c06list is correct", "rapid v1.3.0; go1.26.8"],
+        "jobs": [{"pkg": "c06list", "kinds": ["list"], "scale_thorough": 10, "shards_thorough": 16}],
+    },
     "C04": {
         "level": "exploration",
         "level_text": ("Model-based property testing: thousands of generated operation histories (macro-ops reach wrapped, full, "
